@@ -140,6 +140,7 @@ class Translated:
         self.body = body  # language of group(0)
         self.anchored_start = anchored_start
         self.end_anchor = end_anchor  # None | '$' | 'Z'
+        self.lookahead_lemma = None
 
     def match_language(self):
         """strings on which pattern.match() succeeds"""
@@ -153,7 +154,7 @@ class Translated:
         return self.body
 
 
-def translate(pattern, flags=0):
+def translate(pattern, flags=0, modes=('full', 'match')):
     """pattern: str or compiled pattern -> Translated"""
     if hasattr(pattern, 'pattern'):
         flags = pattern.flags
@@ -173,7 +174,17 @@ def translate(pattern, flags=0):
         if flags & re.M and end_anchor == '$':
             raise RegexUnsupported('$ with MULTILINE')
         items = items[:-1]
-    return Translated(_seq(items, flags), anchored, end_anchor)
+    lemma = None
+    if '(?!' in pattern:
+        # negative look-ahead is outside the SMT regular-expression theories: the automata back end decides (completely) that
+        # removing the look-aheads changes neither the full-match language nor the match-at-start language, else unsupported
+        from . import automata
+        lemma = automata.lookahead_drop_lemma(pattern, flags, modes)
+        if lemma['status'] == 'sat':
+            raise RegexUnsupported(f'negative look-ahead that is not redundant for the language: witness {lemma["witness"]!r}')
+    t = Translated(_seq(items, flags), anchored, end_anchor)
+    t.lookahead_lemma = lemma
+    return t
 
 
 def _seq(items, flags):
@@ -226,6 +237,8 @@ def _item(op, av, flags):
         return ranges_to_re(class_ranges([(sre_c.CATEGORY, av)], False, flags))
     if op is sre_c.AT:
         raise RegexUnsupported(f'anchor {av} in inner position')
+    if op is sre_c.ASSERT_NOT and av[0] == 1:
+        return EPS  # licensed by the look-ahead lemma checked in translate()
     if getattr(sre_c, 'ATOMIC_GROUP', None) is op:
         return _seq(list(av), flags)
     raise RegexUnsupported(f'regex node {op}')
